@@ -76,7 +76,10 @@ def run(report, tier, seed):
                 if kind in ("name", "index", "poly"):
                     j = rng.randrange(D)
                     v = lay["names"][j]
-                    arg = f"q{v}" if kind == "name" else j if kind == "index" else numpoly.symbols(f"q{v}")
+                    if kind == "poly" and rng.random() < 0.5:
+                        arg = p.indeterminants[j]        # an element of the indeterminate array (carries the other names)
+                    else:
+                        arg = f"q{v}" if kind == "name" else j if kind == "index" else numpoly.symbols(f"q{v}")
                     res = numpoly.derivative(p, arg)
                     vs = [v]
                 elif kind == "multi":
